@@ -163,11 +163,20 @@ func (c *compressor) writeBlock() {
 	c.next = 0
 
 	b := c.buf.Bytes()
-	i := bytes.Index(b, bgzfExtraPrefix)
+	// The extra field follows the ten fixed header bytes and XLEN.
+	// Do not look for the subfield in the fixed header: the four
+	// MTIME bytes can spell the subfield's prefix.
+	const extraOffset = 12
+	if len(b) < extraOffset {
+		c.err = gzip.ErrHeader
+		return
+	}
+	i := bytes.Index(b[extraOffset:], bgzfExtraPrefix)
 	if i < 0 {
 		c.err = gzip.ErrHeader
 		return
 	}
+	i += extraOffset
 	size := len(b) - 1
 	if size >= MaxBlockSize {
 		c.err = ErrBlockOverflow
